@@ -463,7 +463,10 @@ pub fn gen_elem(rng: &mut Rng, uniq: &mut u32, allow_indef: bool) -> Elem {
             }
             if len > 0 && rng.chance(1, 4) {
                 let l = payload.len();
-                payload[l - 1] = *rng.pick(&[b'\r', b'\n', b';', b',', b' ']);
+                payload[l - 1] = *rng.pick(&[b'\r', b'\n', b';', b',', b' ', 0x00]);
+                if l >= 2 && rng.chance(1, 3) {
+                    payload[l - 2] = *rng.pick(&[b'\n', b'\r', b' ', 0x00]);
+                }
             }
             let pad = if rng.chance(1, 5) { rng.below(3) as u8 } else { 0 };
             Elem::Blk { payload: B(payload), pad }
